@@ -198,3 +198,5 @@ SAMPLES = {
     "betterproto.load_varint": lambda rnd, n: [{"stream": (pre + b, len(pre))} for b in _varint_bytes(rnd, n) for pre in (b"", b"\x81")],
     "betterproto.decode_varint": lambda rnd, n: [{"buffer": pre + b, "pos": len(pre)} for b in _varint_bytes(rnd, n) for pre in (b"", b"\x81")],
 }
+
+DEPENDS = []
